@@ -36,10 +36,10 @@ def run(ck, F, tier):
     ck.rule('P', 'DecodedPicture::new: luma = vec![0; w*h], chroma_b = chroma_r = vec![0; cw*ch], chroma_samples_per_row = cw, with (w, h) = format.into_width_and_height()? '
                  'and cw = ceil(w/2), ch = ceil(h/2) for all w, h in 0..=65535')
     b = F.body(DP + '::new'); T = Table(F, DP + '::new', cast_kinds=True); N = Norm(T)
-    agg = None
+    agg = None; raw_agg = None
     for d in T.local_defs(0):
         t = N.n(d[2])
-        if t[0] == 'agg' and t[1] == 'Some' and t[2][0] == 'agg' and t[2][1] == 'DecodedPicture': agg = t[2]
+        if t[0] == 'agg' and t[1] == 'Some' and t[2][0] == 'agg' and t[2][1] == 'DecodedPicture': agg = t[2]; raw_agg = d[2][2]
     if agg is None or len(agg) != 8:
         ck.violation('P', 'P : DecodedPicture::new : shape', where_of(b), 'DecodedPicture::new does not return Some(DecodedPicture { 6 fields })'); return
     W = ('fld', ('f', 'try', ('f', 'into_width_and_height', ('v', 'format'))), (0,)); H = ('fld', W[1], (1,))
@@ -48,7 +48,9 @@ def run(ck, F, tier):
     if luma == ('f', 'from_elem', ('c', 0), mk_mul([W, H])): ck.ok('P', 'luma = vec![0; w*h]', where_of(b))
     else: ck.violation('P', 'P : DecodedPicture::new : luma', where_of(b), 'luma plane is %s, expected from_elem(0, w*h)' % show(luma))
     cw = cspr
-    msg = is_half_up(cw, W) if find(cw, lambda z: z == W) and not find(cw, lambda z: z == H) else 'does not depend on the width alone'
+    from .c02 import typed_tab
+    msg = typed_tab(T, N, raw_agg[7], W, 'u16', lambda x: (x + 1) // 2) if not find(cw, lambda z: z == H) else 'depends on the height'
+    if msg == 'float': msg = is_half_up(cw, W) if find(cw, lambda z: z == W) and not find(cw, lambda z: z == H) else 'does not depend on the width alone'
     if msg is None: ck.ok('P', 'chroma_samples_per_row = %s = ceil(w/2) for every w in 0..=65535 (tabulated)' % show(cw), where_of(b))
     else: ck.violation('P', 'P : DecodedPicture::new : chroma row length', where_of(b), 'chroma_samples_per_row = %s is not ceil(w/2): %s' % (show(cw), msg))
     for nm, pl in (('chroma_b', cb), ('chroma_r', cr)):
